@@ -502,6 +502,22 @@ pub fn run() -> i32 {
                 }
             }
         }
+        for case in 0..=9u8 {
+            crate::sym::load(vec![vec![case]]);
+            n += 1;
+            if std::panic::catch_unwind(|| crate::node::c06_skipped_undeclared()).is_err() {
+                c11_bad += 1;
+                eprintln!("SELFTEST-FAIL: c06_skipped_undeclared: case {}", case);
+            }
+        }
+        for case in 0..=15u8 {
+            crate::sym::load(vec![vec![case]]);
+            n += 1;
+            if std::panic::catch_unwind(|| crate::node::c04_macro_lookup()).is_err() {
+                c11_bad += 1;
+                eprintln!("SELFTEST-FAIL: c04_macro_lookup: case {}", case);
+            }
+        }
         for code in 0..=5u8 {
             crate::sym::load(vec![vec![code]]);
             n += 1;
